@@ -60,6 +60,10 @@ CHECKS = {
                 technique="abstract interpretation (affine forms) of the polymorphic window arithmetic per orientation case, decoded through the MIPI MY/MX/MV model and compared with the geometric oracle; bounded Farkas for overflow obligations",
                 text="For each of the 8 orientations the column/page arguments emitted by set_pixels are affine forms whose decoding under the orientation's address mode equals, identically in (lx,ly), offset + mirror(rotate_cw(lx,ly)); both corners share the offsets; set_pixel, fill_solid, fill_contiguous hand exactly their logical coordinates (clipped rectangle corners) to that arithmetic, clipping against (0,0,logical w,h); clear is the trait default; the u16 arithmetic cannot wrap and window ends stay inside the framebuffer under I_init. One polymorphic body covers all models (1x1..65535x65535) and transports.",
                 note="Level 'other': grouping of batched draw_iter pixels into windows is C03 (not decided); 'last colour wins / no other cell changes' relies on the controller model plus C08. Trusted: rustc MIR, interpreter, MIPI decode model, C14, C18, C09, e-g-core intersection/bounding_box contracts."),
+    "C03": dict(level="other", design="5/C03",
+                technique="per-call refinement (simulation) check by abstract interpretation: the transition relations of the two accumulators and of draw_batch are decided on symbolic states with heapless::Vec contents as uninterpreted sequence terms, under the accumulator invariants found by the loop analysis (C08)",
+                text="With `batch`: every path of RowIterator::next is first-pixel / append / flush / end-pending / end-empty and satisfies pending(before) ++ [pixel] = emitted ++ pending(after) (an appended pixel's colour is pushed at the end and it sits at (x_left + len, y); a flushed row is handed on unchanged; the pixel that caused the flush starts the next row; the trailing row is emitted at the end of the stream); the same for BlockIterator::next over rows (appended only directly below with identical columns, colours concatenated); draw_batch sends each block once, in order, as its own window with its own colours and nothing else.",
+                note="Level 'other': the induction over the stream (bursts read row-major = in-bounds pixels in stream order, each once; last-write-wins) and the controller's row-major fill are argued in DESIGN.md, not mechanised. Relies on C08 (accumulator invariants, framing), C02 (only in-bounds pixels enter the pipeline), C01 (window -> framebuffer cells). Without `batch` draw_iter is set_pixel per item: nothing to decide."),
     "C02": dict(level="other", design="5/C02",
                 technique="taint-style sanitiser rule and panic-obligation audit over the interpreted cones of the DrawTarget methods: every value-changing cast / overflow / bounds / unwrap site is an obligation discharged by ranges, bounded Farkas, loop interval invariants and Houdini-style template invariants (P_win)",
                 text="For all 8 orientations and both batch settings, with arbitrary i32 coordinates: no caller-supplied coordinate reaches a u16 cast unchecked, every address window ends inside the framebuffer as seen under the address mode (also for the batched pipeline, through template invariants on the accumulators), and every panic site in the cones of draw_iter / fill_contiguous / fill_solid is discharged (skip products by the stated '< 2^32 points' precondition); for fill_contiguous the in-bounds remainder gets exactly the colours it would get unclipped (C04's colour-stream rule, re-decided here).",
@@ -79,7 +83,6 @@ CHECKS = {
 }
 
 NOT_APPLICABLE = {
-    "C03": "equivalence of two nested stateful iterators with per-pixel, order-sensitive semantics over unbounded streams: the content and order of the colours inside a block (which colour lands on which point) is a statement about histories of the accumulators, not about their current shape; the shape-level necessary conditions that static analysis does reach are decided elsewhere - coordinates sanitised and windows in bounds (C02), every flushed block has start <= end and exactly width*height colours (C08), no fallback to single-pixel bursts and capacity bounds (C20)",
     "C19": "a property of the rendered picture (pixel-exact frame, colour regions, asymmetry) as a function of target size through embedded-graphics primitives whose bodies are outside the analysed crate; nothing picture-level is visible in the shape of the code",
 }
 
